@@ -53,6 +53,27 @@ func (c *PMultiCircuit) Define(api frontend.API) error {
 	return nil
 }
 
+// PDerivedCircuit passes DERIVED expressions (not bare inputs) to the gadgets and reuses them afterwards.
+type PDerivedCircuit struct {
+	A, B           frontend.Variable
+	H1, H2, H3, H4 frontend.Variable
+}
+
+func (c *PDerivedCircuit) Define(api frontend.API) error {
+	v := api.Add(c.A, 1)
+	w := api.Mul(c.A, c.B)
+	u := api.Add(api.Mul(c.B, 3), c.A, 7)
+	h1 := abstractor.Call(api, poseidon.Poseidon2{In1: v, In2: v})
+	h2 := abstractor.Call(api, poseidon.Poseidon1{In: v})
+	h3 := abstractor.Call(api, poseidon.Poseidon2{In1: v, In2: w})
+	h4 := abstractor.Call(api, poseidon.Poseidon2{In1: u, In2: v})
+	api.AssertIsEqual(h1, c.H1)
+	api.AssertIsEqual(h2, c.H2)
+	api.AssertIsEqual(h3, c.H3)
+	api.AssertIsEqual(h4, c.H4)
+	return nil
+}
+
 type KeccakCircuit struct {
 	In   []frontend.Variable
 	Out  [256]frontend.Variable
@@ -68,6 +89,37 @@ func (c *KeccakCircuit) Define(api frontend.API) error {
 	}
 	for i := range c.Out {
 		api.AssertIsEqual(h[i], c.Out[i])
+	}
+	return nil
+}
+
+// PackedKeccakCircuit hashes consecutive sub-slices of ONE input buffer, in order, then the whole buffer:
+// a gadget that writes into its caller's slice corrupts the later messages.
+type PackedKeccakCircuit struct {
+	In    []frontend.Variable
+	Outs  [][256]frontend.Variable // one digest per part, then the digest of the whole buffer
+	Parts []int                    // part lengths in bits
+	SHA3  bool
+}
+
+func (c *PackedKeccakCircuit) Define(api frontend.API) error {
+	hash := func(data []frontend.Variable) []frontend.Variable {
+		if c.SHA3 {
+			return keccak.NewSHA3_256(api, len(data), data...)
+		}
+		return keccak.NewKeccak256(api, len(data), data...)
+	}
+	off := 0
+	for i, n := range c.Parts {
+		h := hash(c.In[off : off+n]) // cap(c.In[off:off+n]) > len: room behind the message
+		for j := range h {
+			api.AssertIsEqual(h[j], c.Outs[i][j])
+		}
+		off += n
+	}
+	h := hash(c.In)
+	for j := range h {
+		api.AssertIsEqual(h[j], c.Outs[len(c.Parts)][j])
 	}
 	return nil
 }
